@@ -6,7 +6,7 @@ From Cffi Require Import C22.Model.
 (* misc_thread_common.h: storage class of cffi_saved_errno *)
 Definition gen_saved_thread_local : bool := true.
 Definition gen_save_errno_only_copies_errno_to_saved : bool := true.
-Definition gen_restore_errno_only_copies_saved_to_errno : bool := false.
+Definition gen_restore_errno_only_copies_saved_to_errno : bool := true.
 Definition gen_posix_aliases : bool := true.
 (* _cffi_backend.c: statements around ffi_call() in b_call *)
 Definition gen_b_call : list bstep := [BRestore; BForeign; BSave].
